@@ -167,6 +167,10 @@ def seq_has_step(arr, i, v):
     return seq_has(arr, i + 1, v) == Or(seq_has(arr, i, v), py_eq(v, Select(arr, i)))
 
 
+# number of truthy items in a sequence prefix (defined by recursion on n, like seq_has)
+seq_count_truthy = Function('seq_count_truthy', SeqArr, IntSort(), IntSort())
+
+
 floorq = Function('floorq', RealSort(), RealSort(), IntSort())      # floor(a/b) for reals, b != 0
 
 
